@@ -66,17 +66,20 @@ def collect(h):
         widths.append(_writer_width(h, rel, fn))
     items.append(("view_kind_widths", "list nat", "[" + "; ".join(str(w) for w in widths) + "]", rel + ", " + rel2))
 
-    # IncBytes: the pinned code copies cur and increments with carry (length kept: F22); the
-    # proposed repair strips trailing 0xff bytes first
-    inc = h.func_body(rel, r"^func IncBytes\(", "IncBytes")
-    if re.search(r"next = make\(\[\]byte, len\(cur\)\)\s*\n\s*copy\(next, cur\)\s*\n\s*incByte\(len\(cur\) - 1\)", inc):
+    # upper bound of the range Read scans for a (partial) key: the code used utils.IncBytes
+    # (copy + increment with carry, the length is kept: finding F22); the fix (5350d42ca) calls a
+    # successor that strips trailing 0xff bytes first
+    m = h.find("pkg/istructsmem/viewrecords-types.go",
+               r"storage\.Read\(ctx, pKey, cKey, utils\.(\w+)\(cKey\), readRecord\)", "view Read range")
+    fn = m.group(1)
+    body = h.func_body(rel, r"^func %s\(" % fn, fn)
+    if fn == "IncBytes" and re.search(r"next = make\(\[\]byte, len\(cur\)\)\s*\n\s*copy\(next, cur\)\s*\n\s*incByte\(len\(cur\) - 1\)", body) \
+            and re.search(r"if FullBytes\(cur\) \{\s*\n\s*return nil", body):
         keeps = "true"
-    elif re.search(r"next = make\(\[\]byte, n\)\s*\n\s*copy\(next, cur\[:n\]\)\s*\n\s*next\[n-1\]\+\+", inc):
+    elif re.search(r"n := len\((\w+)\)\s*\n\s*for n > 0 && \1\[n-1\] == math\.MaxUint8 \{\s*\n\s*n--\s*\n\s*\}\s*\n\s*if n == 0 \{\s*\n\s*return nil\s*\n\s*\}\s*\n"
+                   r"\s*next = make\(\[\]byte, n\)\s*\n\s*copy\(next, \1\[:n\]\)\s*\n\s*next\[n-1\]\+\+\s*\n\s*return next", body):
         keeps = "false"
     else:
-        raise h.Missing(f"{rel}: IncBytes has neither of the two known shapes")
-    items.append(("view_incbytes_keeps_length", "bool", keeps, rel + " IncBytes"))
-
-    # Read scans [cKey, IncBytes(cKey)) of one partition
-    h.find("pkg/istructsmem/viewrecords-types.go", r"storage\.Read\(ctx, pKey, cKey, utils\.IncBytes\(cKey\), readRecord\)", "view Read range")
+        raise h.Missing(f"{rel}: the upper bound utils.{fn} of the view Read range has neither of the two known shapes")
+    items.append(("view_incbytes_keeps_length", "bool", keeps, rel + " " + fn + " (upper bound of the view Read range)"))
     return items
